@@ -41,7 +41,7 @@ pub struct CdnCase {
 }
 
 /// per-request behaviours of the scripted CDN host
-pub const BEHAVIOURS: [&str; 22] = ["ok", "500", "502", "503", "504", "501", "507", "599", "429", "429ra1", "429ra7", "429ra0", "429rabad", "400", "403", "404", "410", "refused", "reset", "timeout", "body_reset", "body_stall"];
+pub const BEHAVIOURS: [&str; 26] = ["ok", "500", "502", "503", "504", "501", "507", "599", "429", "429ra1", "429ra7", "429ra0", "429rabad", "429radate", "429rabig", "429raneg", "429rafrac", "400", "403", "404", "410", "refused", "reset", "timeout", "body_reset", "body_stall"];
 
 const RIBBIT_TTL_S: u64 = 200;
 const CDN_TTL_S: u64 = 2000;
@@ -191,7 +191,9 @@ fn class_of(b: &str) -> Class {
         "429ra1" => Class::Transient(Some(Duration::from_secs(1))),
         "429ra7" => Class::Transient(Some(Duration::from_secs(7))),
         "429ra0" => Class::Transient(Some(Duration::ZERO)),
-        "429" | "429rabad" | "refused" | "reset" | "timeout" => Class::Transient(None),
+        // (a Retry-After that is not a whole number of seconds - a word, an HTTP date, a number that does not fit
+        // 64 bits, a negative or fractional one - is no hint: the computed back-off applies)
+        "429" | "429rabad" | "429radate" | "429rabig" | "429raneg" | "429rafrac" | "refused" | "reset" | "timeout" => Class::Transient(None),
         "body_reset" | "body_stall" => Class::BrokenBody,
         other => match other.parse::<u16>() {
             Ok(c) if (500..600).contains(&c) => Class::Transient(None),
@@ -276,6 +278,10 @@ fn install(net: &Network, srv: &Arc<Mutex<Server>>, seed: u64) {
                         "429ra7" => headers.push(("Retry-After".to_string(), "7".to_string())),
                         "429ra0" => headers.push(("Retry-After".to_string(), "0".to_string())),
                         "429rabad" => headers.push(("Retry-After".to_string(), "soon".to_string())),
+                        "429radate" => headers.push(("Retry-After".to_string(), "Wed, 21 Oct 2026 07:28:00 GMT".to_string())),
+                        "429rabig" => headers.push(("Retry-After".to_string(), "18446744073709551616".to_string())),
+                        "429raneg" => headers.push(("Retry-After".to_string(), "-1".to_string())),
+                        "429rafrac" => headers.push(("Retry-After".to_string(), "1.5".to_string())),
                         _ => {}
                     }
                     let body = if status == 200 { body } else { b"error".to_vec() };
